@@ -173,6 +173,14 @@ func loadCorpus() {
 }
 
 func smallCodec(r *rand.Rand) []byte {
+	for {
+		if b := smallCodec1(r); len(b) <= 1<<16 {
+			return b // base inputs stay small: C01 owns the size classes
+		}
+	}
+}
+
+func smallCodec1(r *rand.Rand) []byte {
 	p := c01.GenCodec(r)
 	for _, s := range p.Sample {
 		for i := range s.Value {
